@@ -217,8 +217,8 @@ def plan(tier, seed):
         files = corpus.SMALL[:8] + ["1ehz-assembly-1.cif"]
         for f in files:
             specs.append({"kind": "files", "files": [f]})
-        specs += [{"kind": "moved", "files": corpus.SMALL[:8], "examples": 12, "seed": seed * 1000 + k} for k in range(6)]
-        specs += [{"kind": "mini", "files": corpus.SMALL[:8] + ["1ehz-assembly-1.cif"], "examples": 150, "seed": seed * 1000 + 50 + k} for k in range(10)]
+        specs += [{"kind": "moved", "files": corpus.SMALL[:8], "examples": 20, "seed": seed * 1000 + k} for k in range(12)]
+        specs += [{"kind": "mini", "files": corpus.SMALL[:8] + ["1ehz-assembly-1.cif"], "examples": 400, "seed": seed * 1000 + 50 + k} for k in range(16)]
     else:
         for f in corpus.all_files():
             specs.append({"kind": "files", "files": [f]})
